@@ -280,8 +280,21 @@ def rule_T3(ctx):
     outs = enumerate_paths(m.node.body)
     bad = [oc for steps, oc in outs if oc != "return"]
     rets = [n for n in ast.walk(m.node) if isinstance(n, ast.Return)]
-    ok = not bad and rets and all(r.value is not None and "results" == u(r.value) for r in rets)
-    ctx.check(ok, "T3", "_run_main_sampler returns the results mapping on every path", m.where(), "some path leaves _run_main_sampler without returning the results", construct=m.qualname, stmt="return results")
+
+    def _resolved(fn, e):
+        """The expression a returned name stands for (its single assignment in the function), else the expression."""
+        if isinstance(e, ast.Name):
+            defs = [a.value for a in ast.walk(fn.node) if isinstance(a, ast.Assign) and len(a.targets) == 1 and isinstance(a.targets[0], ast.Name) and a.targets[0].id == e.id]
+            if len(defs) == 1:
+                return defs[0]
+        return e
+
+    def _is_results(e):
+        e = _resolved(m, e)
+        return isinstance(e, ast.Dict) and any(isinstance(k, ast.Constant) and k.value == "trace" for k in e.keys)
+
+    ok = not bad and rets and all(r.value is not None and _is_results(r.value) for r in rets)
+    ctx.check(ok, "T3", "_run_main_sampler returns the results mapping on every path", m.where(), "some path leaves _run_main_sampler without returning the results mapping (the one that holds the trace)", construct=m.qualname, stmt="return results")
     brk = [n for n in ast.walk(m.node) if isinstance(n, ast.Break)]
     pm = parents(m.node)
     ok = len(brk) == 1 and any("max_time" in u(t) and "elapsed" in u(t) for t, pol in guards_of(brk[0], pm))
@@ -291,7 +304,14 @@ def rule_T3(ctx):
             ctx.fail("T3", "_run_main_sampler has no exception handler", m.where(n), "an exception handler inside the sweep loop can swallow a sampler failure", construct=m.qualname, stmt="try")
     c = prog.fn("run.run_phyclone_chain")
     rets = [n for n in ast.walk(c.node) if isinstance(n, ast.Return)]
-    ok = len(rets) == 1 and u(rets[0].value) == "results" and any(isinstance(s, ast.Assign) and u(s.targets[0]) == "results" and call_name(s.value) == "_run_main_sampler" for s in ast.walk(c.node) if isinstance(s, ast.Assign) and isinstance(s.value, ast.Call))
+    def _resolved_c(e):
+        if isinstance(e, ast.Name):
+            defs = [a.value for a in ast.walk(c.node) if isinstance(a, ast.Assign) and len(a.targets) == 1 and isinstance(a.targets[0], ast.Name) and a.targets[0].id == e.id]
+            if len(defs) == 1:
+                return defs[0]
+        return e
+
+    ok = len(rets) >= 1 and all(r.value is not None and isinstance(_resolved_c(r.value), ast.Call) and call_name(_resolved_c(r.value)).split(".")[-1] == "_run_main_sampler" for r in rets)
     ctx.check(ok, "T3", "run_phyclone_chain returns what _run_main_sampler returned", c.where(), "the chain's result is not the main sampler's result", construct=c.qualname, stmt="return results")
     r = prog.fn("run.run")
     exc = [n for n in ast.walk(r.node) if isinstance(n, ast.Raise) and n.exc is not None and u(n.exc) == "exception"]
